@@ -39,7 +39,7 @@ func (r *RectClip64) Execute(paths Paths64) Paths64 {
 		r.checkEdges()
 
 		for i := 0; i < 4; i++ {
-			r.tidyEdgePair(i, r.edges[i*2], r.edges[i*2+1])
+			r.tidyEdgePair(i, &r.edges[i*2], &r.edges[i*2+1])
 		}
 
 		for _, op := range r.results {
